@@ -140,6 +140,23 @@ def run(ctx):
         for p, R in ms[:1]:
             events.append({"op": "Occ", "p": list(p), "R": [list(c) for c in R], "q": list(q),
                            "res": sorted(list(t) for t in MeshPatt(Perm(p), R).occurrences_in(Q))})
+    # lists in which several patterns share their underlying permutation (a weaker one first, a stricter one later,
+    # and the other way round): every element of the list must be judged on its own
+    for _ in range(100 if quick else 1000):
+        k = rnd.choice([1, 2, 2, 3])
+        p = util.rand_perm(rnd, k)
+        cells = [(x, y) for x in range(k + 1) for y in range(k + 1)]
+        R1 = [c for c in cells if rnd.random() < 0.25]
+        R2 = sorted(set(R1) | {c for c in cells if rnd.random() < 0.3})
+        q = util.rand_perm(rnd, rnd.randint(k, 6))
+        Q = Perm(q)
+        fam = [("cl", Perm(p)), ("m1", MeshPatt(Perm(p), R1)), ("m2", MeshPatt(Perm(p), R2))]
+        rnd.shuffle(fam)
+        objs = [o for _, o in fam]
+        jm = [{"p": list(p), "R": [list(c) for c in R]} for R in (R1, R2)]
+        events.append({"op": "Mixed", "kind": "contains", "q": list(q), "cl": [list(p)], "ms": jm, "res": Q.contains(*objs)})
+        events.append({"op": "Mixed", "kind": "avoids", "q": list(q), "cl": [list(p)], "ms": jm, "res": Q.avoids(*objs)})
+        events.append({"op": "Mixed", "kind": "avoids", "q": list(q), "cl": [list(p)], "ms": jm, "res": Q.avoids_set(iter(objs))})
     # interleaved lazy iterators, some sharing one pattern object
     nit = 40 if quick else 300
     idc = 0
